@@ -455,7 +455,7 @@ def doc_oracle(c, stats):
 
 
 PARTS = [
-    HypPart("options", lambda tier: case(), oracle, {"quick": 800, "thorough": 10000}),
-    HypPart("tiny-structures", lambda tier: tiny_case(), oracle, {"quick": 160, "thorough": 1500}),
+    HypPart("options", lambda tier: case(), oracle, {"quick": 1600, "thorough": 12000}),
+    HypPart("tiny-structures", lambda tier: tiny_case(), oracle, {"quick": 400, "thorough": 3000}),
     EnumPart("documented-commands", doc_cases, doc_oracle, exhaustive=lambda tier: False, chunk=1),
 ]
